@@ -418,22 +418,37 @@ func r103(c *Ctx) {
 		c.ob(rule, "RequestUsesRolloutGroup/"+cs.common().StaticCallee().Name()+"-only-with-a-cookie-value", cs.pos(), nonEmpty && cs.common().Args[1] == ssa.Value(val), true, "allowlist and percentage may be consulted only for a non-empty cookie value, and on that value")
 	}
 	for _, ret := range normalReturns(uses) {
-		v := retVal(ret, 0)
-		ok := false
-		if b, isC := constBool(v); isC {
-			if !b {
-				ok = true
-			} else {
-				// true only under valueInAllowlist true
+		// every value that can be returned is false, a verdict of the allowlist / percentage test, or true on a path where
+		// the allowlist test was true
+		var okSrc func(v ssa.Value, conds []condEdge, depth int) bool
+		okSrc = func(v ssa.Value, conds []condEdge, depth int) bool {
+			if b, isC := constBool(v); isC {
+				if !b {
+					return true
+				}
 				for _, cs := range callsTo(uses, al) {
-					if t, _ := boolFacts(ret, sameAs(cs.instr.(*ssa.Call))); t {
-						ok = true
+					if t, _ := boolFactsOf(conds, sameAs(cs.instr.(*ssa.Call))); t {
+						return true
 					}
 				}
+				return false
 			}
-		} else if call, isCall := v.(*ssa.Call); isCall && isCallTo(call.Common(), vp) {
-			ok = true
+			if call, isCall := v.(*ssa.Call); isCall && (isCallTo(call.Common(), vp) || isCallTo(call.Common(), al)) {
+				return true
+			}
+			if phi, isPhi := v.(*ssa.Phi); isPhi && depth < 4 {
+				for i, e := range phi.Edges {
+					pred := phi.Block().Preds[i]
+					ec := append(append([]condEdge{}, dominatingConds(pred)...), edgeCond(pred, phi.Block())...)
+					if !okSrc(e, ec, depth+1) {
+						return false
+					}
+				}
+				return true
+			}
+			return false
 		}
+		ok := okSrc(retVal(ret, 0), dominatingConds(ret.Block()), 0)
 		c.ob(rule, "RequestUsesRolloutGroup/result-provenance", ret.Pos(), ok, true, "the decision may be true only via the allowlist or the percentage test")
 	}
 	// valueInAllowlist == slices.Contains(rc.Allowlist, value)
